@@ -338,6 +338,9 @@ func recoverTable(k *tableKind, tree *crashfs.Tree, scratch string) *observation
 	if t != nil {
 		_ = guard(t.Close)
 	}
+	// round 2: the same crash state once more, recovered and then only shut down gracefully and restarted (lives.go)
+	lp, trail := gracefulLives(func(d string, e uint64) lifeTable { return k.open(d, e, false, false) }, tree, scratch)
+	ob.Problems, ob.Lives = append(ob.Problems, lp...), trail
 	ob.Problems = uniq(ob.Problems)
 	return ob
 }
